@@ -152,7 +152,7 @@ def finish(ctx, required_ops, rule, level='exploration', assumptions=(), exhaust
     outroot = VERIF
     if os.environ.get('VERIF_NO_EVIDENCE'):        # mutant / self-test runs must not touch the committed evidence
         import tempfile
-        outroot = os.path.join(tempfile.gettempdir(), 'verif_scratch_%d' % os.getuid())
+        outroot = os.path.join(tempfile.gettempdir(), 'verif_scratch_%d%s' % (os.getuid(), os.environ.get('VERIF_SCRATCH_TAG', '')))
     rdir = os.path.join(outroot, 'replays', pid)
     lines = []
     for mech, w, f in listed:
